@@ -193,4 +193,27 @@ example : AtPlain "PART 1\n  the quick (brown) fox, 1.2 - jumps\nmore\n".toList.
     "the quick (brown) fox, 1.2 - jumps".toList := by
   simp [AtPlain, isPlain, clsMatch, overrideNeg, overrideCls]
 
+
+/-- **From the characters of a line to the element, nothing lost and nothing added**: for a line of plain
+text with escapes anywhere (C13's `AtSegs`), every block-level rule reads it as an item from which the XML
+builder makes `<p>` whose only content is the text of the line without its escaping backslashes — provided
+that text is XML-compatible (otherwise the builder raises: F2). -/
+theorem C03_mixed_line_to_element (u : Uris) (parent : Option String) (st : GenState)
+    (inp : Array Char) (p : Nat) (ss : List Seg) (h : AtSegs inp p ss) (hs : segStartOK ss)
+    (hx : xmlTextOk (String.ofList (segsTxt ss)) = true) :
+    ∃ t, (∀ rule ∈ blockLevelRules, Lim aknExec inp (.ref rule) p (.ok t)) ∧
+      ∀ k k2, (itemToXml u parent (k2 + 3) (toDict inp (k + 2) t) st).1
+        = .ok (.elem "p" [] [.text (String.ofList (segsTxt ss))]) := by
+  obtain ⟨t, hd, hl⟩ := C13_escape_anywhere_in_plain_text inp p ss h hs
+  refine ⟨t, hl, fun k k2 => ?_⟩
+  have hne : String.ofList (segsTxt ss) ≠ "" := by
+    cases ss with
+    | nil => exact absurd hs (by simp [segStartOK])
+    | cons sg rest =>
+      cases sg with
+      | esc c => intro e; have := congrArg String.toList e; simp [segsTxt, Seg.txt] at this
+      | run c r => intro e; have := congrArg String.toList e; simp [segsTxt, Seg.txt] at this
+  rw [hd k]
+  simp [itemToXml, itemsToXml, mkElem, makerCheck, mergeText, hx, Except.bind, hne]
+
 end Bluebell
